@@ -261,6 +261,16 @@ func c06Grammar(res *explore.Result, g *gram.Grammar, inputs [][]byte, verbose b
 			}
 			// expectation must be one that really failed at p
 			what := strings.TrimPrefix(exp, "was expecting ")
+			// ... judged against the bytes the file was CREATED from, not against what the reader happens to see now
+			if len(what) >= 3 && what[0] == '"' {
+				if lit, uerr := strconv.Unquote(what); uerr == nil && len(lit) == 1 && p < n && w[p] == lit[0] {
+					viol("expectation-did-not-fail-there", fmt.Sprintf("error %q: the input the file was created from HAS %s at %d", text, what, p))
+					continue
+				}
+			} else if what == "the end of input" && p >= n {
+				viol("expectation-did-not-fail-there", fmt.Sprintf("error %q: the input the file was created from ends at %d", text, p))
+				continue
+			}
 			if what == exp || !failed[attempt{what, p}] {
 				viol("expectation-did-not-fail-there", fmt.Sprintf("error %q: nothing called %q was tried at %d and failed there (failed at %d: %s)", text, what, p, p, describeFailed(failed, p)))
 			}
